@@ -130,6 +130,11 @@ def cmd_run(sid, tier='quick', props=None, extra='', in_repo=False):
             shutil.rmtree(scratch, ignore_errors=True)
         shutil.rmtree(outdir, ignore_errors=True)
     meta['checks'] = [c for c in meta.get('checks', []) if (c['property'], c['tier']) not in [(r['property'], r['tier']) for r in results]] + results
+    # every run is also appended to 'history' (a miss that led to a stronger check stays on record)
+    vc = sh('git -C %s rev-parse --short HEAD' % ROOT)[1].strip() + ('+uncommitted' if sh('git -C %s status --porcelain -- sim' % ROOT)[1].strip() else '')
+    for r in results:
+        meta.setdefault('history', []).append({'verif': vc, 'property': r['property'], 'tier': r['tier'], 'caught': r['caught'],
+                                               'exit': r['exit'], 'first': r['first']})
     json.dump(meta, open(os.path.join(d, 'meta.json'), 'w'), indent=1, ensure_ascii=False)
     if in_repo:
         rc, o = sh('git -C /repo status --porcelain')
